@@ -7,7 +7,8 @@ import readmodel as rm
 
 PROP = "C07"
 MODEL_TARGETS = ["Corr/ReadShow.vo"]
-THEOREMS = ["C07_reshape_rows", "C07_transpose_nth", "C07_bind_length", "C07_bind_declared_frame", "C07_bind_declared", "C07_bind_new_unnamed", "C07_data_columns", "C07_rectangular", "C07_normal_engine_binds", "C07_bind_current", "C07_n_columns_current"]
+THEOREMS = ["C07_reshape_rows", "C07_transpose_nth", "C07_bind_length", "C07_bind_declared_frame", "C07_bind_declared", "C07_bind_new_unnamed", "C07_data_columns", "C07_rectangular", "C07_normal_engine_binds", "C07_bind_current", "C07_n_columns_current",
+            "C07_numpy_engine_rect", "C07_normal_engine_rect", "C07_engine_rect", "C07_read_rectangular", "C07_read_one_data_shape"]
 ASSUMPTIONS = [
     "WRAP=YES is claimed for c = d (a depth step is d values spread over lines) and for whole-step lines with c >= d; "
     "a wrapped file with fewer values per step than declared curves is indistinguishable from a differently shaped file",
